@@ -11,6 +11,7 @@ from __future__ import annotations
 
 import copy
 import functools
+import os
 import warnings
 
 import numpy as np
@@ -78,8 +79,22 @@ def _two(o, nrun=2):
     return o.rename({"t": "time"})
 
 
-def datasets(seed, cross=False, two=False):
+def _lst(seed, salt, k, n=8, t0=0, shift=0.0):
+    """a list of k fields on the same grid with different means and amplitudes (k > 10: the per-item transformers are
+    filed under the keys "0".."11", whose string order differs from their numeric order)."""
+    return [_da(seed, salt + 7 * i, n=n, t0=t0, shift=shift + 10.0 * i, fac=1.0 + i, name="v%d" % i) for i in range(k)]
+
+
+def datasets(seed, cross=False, two=False, lst=False):
     """name -> object. Groups: A = {D1, D2, DnewA} share a structure; B = {D3, DnewB}."""
+    if lst:
+        return {
+            "D1": _lst(seed, 1, 12),
+            "D2": _lst(seed, 2, 12, shift=5.0),
+            "DnewA": _lst(seed, 3, 12, n=4, t0=100),
+            "D3": _lst(seed, 4, 2, n=7),
+            "DnewB": _lst(seed, 5, 2, n=3, t0=200),
+        }
     if two:
         d = datasets(seed, cross, False)
         out = {}
@@ -119,8 +134,9 @@ YOF = {"D1": "E1", "D2": "E2", "D3": "E3", "DnewA": "EnewA", "DnewB": "EnewB"}
 
 # ----------------------------------------------------------------------------- subjects
 
-SUBJECTS = ["EOF", "EOF2s", "SparsePCA", "POP", "OPA", "CPCCA", "MCA", "EOF+Rotator", "MCA+Rotator", "EOF+Bootstrapper"]
+SUBJECTS = ["EOF", "EOF2s", "EOFlist", "SparsePCA", "POP", "OPA", "CPCCA", "MCA", "EOF+Rotator", "MCA+Rotator", "EOF+Bootstrapper"]
 TWO = {"EOF2s"}  # subjects whose data sets have two sample dimensions (time, run)
+LIST = {"EOFlist"}  # subjects fitted on lists (12 items in group A, 2 items in group B)
 CROSS = {"CPCCA", "MCA", "MCA+Rotator"}
 
 
@@ -128,7 +144,7 @@ def new_system(subject):
     import xeofs as xe
 
     s = {}
-    if subject in ("EOF", "EOF2s", "EOF+Rotator", "EOF+Bootstrapper"):
+    if subject in ("EOF", "EOF2s", "EOFlist", "EOF+Rotator", "EOF+Bootstrapper"):
         s["model"] = xe.single.EOF(n_modes=3, random_state=3)
     elif subject == "SparsePCA":
         # a genuinely lossy sketch (k + oversample < rank): the result depends on the random draws, i.e. on the seed
@@ -152,6 +168,10 @@ def new_system(subject):
 
 def ops_of(subject, tier_alphabet="full"):
     ops = ["fit:D1", "fit:D2", "fit:D3", "transform:fit", "transform:new", "inverse_transform", "components", "scores", "accessors:normalized", "metrics", "compute", "serialize", "transform:newlist"]
+    if subject in LIST:
+        # (de)serialising the per-item transformers of a 12-item list costs seconds: a reduced alphabet
+        ops = ["fit:D1", "fit:D3", "transform:new", "inverse_transform", "compute", "serialize", "transform:newlist"]
+        return ops[:3] if tier_alphabet == "fit_transform" else ops
     if tier_alphabet == "fit_transform":
         return ops[:5]
     if subject.endswith("+Rotator"):
@@ -198,6 +218,8 @@ def apply_op(subject, sys_, op, dsets, absstate):
         d = NEW[GROUP[last]]
         if cross:
             return _call(m.transform, [dsets[d]], [dsets[YOF[d]]])
+        if subject in LIST:
+            return _call(m.transform, tuple(dsets[d]))  # a tuple where the model was fitted on a list
         return _call(m.transform, [dsets[d]])
     if op == "inverse_transform":
         if cross:
@@ -238,6 +260,7 @@ def _metrics(subject, m):
     names = {
         "EOF": ["explained_variance", "explained_variance_ratio", "singular_values"],
         "EOF2s": ["explained_variance", "explained_variance_ratio", "singular_values"],
+        "EOFlist": ["explained_variance", "explained_variance_ratio", "singular_values"],
         "SparsePCA": ["explained_variance", "explained_variance_ratio"],
         "POP": ["eigenvalues", "periods", "damping_times"],
         "OPA": ["decorrelation_time", "filter_patterns"],
@@ -290,7 +313,7 @@ def aux_answers(obj):
 @functools.lru_cache(maxsize=None)
 def reference(subject, last, seed, aux):
     """Answers of a fresh system fitted exactly once on `last` (then, optionally, aux fitted once)."""
-    dsets = datasets(seed, subject in CROSS, subject in TWO)
+    dsets = datasets(seed, subject in CROSS, subject in TWO, subject in LIST)
     s = new_system(subject)
     st = {}
     with warnings.catch_warnings():
@@ -323,8 +346,9 @@ def enabled(subject, history, op):
 
 def rounds(tier, seed):
     depth = depth_of(tier)
-    seen = {s: set() for s in SUBJECTS}
-    frontier = [dict(subject=s, history=[op]) for s in SUBJECTS for op in ops_of(s) if enabled(s, [], op)]
+    subjects = [s for s in SUBJECTS if s in os.environ.get("XMC_C14_SUBJECTS", ",".join(SUBJECTS)).split(",")]  # debugging aid
+    seen = {s: set() for s in subjects}
+    frontier = [dict(subject=s, history=[op]) for s in subjects for op in ops_of(s) if enabled(s, [], op)]
     level = 1
     deep_ft = tier == "thorough"
     while frontier:
@@ -361,8 +385,8 @@ _STATS = {}
 
 def run_case(case, seed):
     subject, history = case["subject"], case["history"]
-    dsets = datasets(seed, subject in CROSS, subject in TWO)
-    pristine = datasets(seed, subject in CROSS, subject in TWO)
+    dsets = datasets(seed, subject in CROSS, subject in TWO, subject in LIST)
+    pristine = datasets(seed, subject in CROSS, subject in TWO, subject in LIST)
     s = new_system(subject)
     st = {}
     V = []
